@@ -577,6 +577,66 @@ func init() {
 		Explanation: "Decides the structural clause 'every data-disclosing entry point is dominated by a successful credential check, and the credential checks accept only the credentials the property names': dominance of authorize()==nil over all DB/stream operations in each rpc.Server method; password lattice of authorize; dominance of authenticate()==true over every data-serving call reachable from the registered web routes; path lattice of authenticate (unconfigured | decoded cookie and (unexpired | org re-verified) | header==Password) and of the cookie issuance in oauthCode.",
 		NotDecided:  []string{"cryptographic strength of securecookie / TLS", "GitHub's API answering truthfully", "timing side channels of string comparison", "endpoints that disclose no stored data (index, metrics, insert)"},
 		Assumptions: []string{"grpc dispatches only to the rpc.Server methods through rpc.ServiceDesc", "gorilla/mux dispatches only to the registered handlers"},
-		Rules:       []func(*Ctx){ruleC19a, ruleC19b, ruleC19c},
+		Rules:       []func(*Ctx){ruleC19a, ruleC19b, ruleC19c, ruleC19d},
 	})
+}
+
+// ruleC19d: session cookies are only as good as their keys.
+func ruleC19d(c *Ctx) {
+	const rule = "C19.d"
+	c.describe(rule, "flow: whenever package web generates a cookie key, crypto/rand.Read fills the WHOLE key — its argument is make([]byte, n) with no smaller length than capacity (or a full slice of an array); a zero-length buffer with capacity n leaves the key all zeroes and lets anyone mint a valid session cookie")
+	n := 0
+	for _, fn := range c.P.ModFns {
+		if pkgOf(fn) != "z/web" {
+			continue
+		}
+		for _, call := range callsTo(fn, "crypto/rand.Read") {
+			n++
+			c.touch(fn)
+			arg := resolveVal(c.P, call.Common().Args[0], nil)
+			ok, undec := false, false
+			switch x := arg.(type) {
+			case *ssa.MakeSlice:
+				k, isK := constInt(x.Len)
+				ok = x.Len == x.Cap || sameValue(x.Len, x.Cap)
+				if kc, isKc := constInt(x.Cap); isK && isKc && k == kc {
+					ok = true
+				}
+				if isK && k == 0 {
+					ok = false
+				}
+				if !ok && !isK {
+					if _, capK := constInt(x.Cap); !capK && x.Len != x.Cap {
+						undec = true
+					}
+				}
+			case *ssa.Slice:
+				al, isArr := x.X.(*ssa.Alloc)
+				ok = isArr && x.Low == nil && x.High == nil
+				if isArr && x.Low == nil && x.High != nil {
+					// make([]byte, n) with constant n is lowered to new [n]byte + slice [:n]
+					if pt, isP := al.Type().Underlying().(*types.Pointer); isP {
+						if at, isA := pt.Elem().Underlying().(*types.Array); isA {
+							if k, isK := constInt(x.High); isK && k == at.Len() && k > 0 {
+								ok = true
+							}
+						}
+					}
+				}
+				if !ok {
+					undec = !isArr
+				}
+			default:
+				undec = true
+			}
+			top := topOf(fn)
+			inst := stableName(top) + ": random key #" + itoa(perTopCount(c, rule, top)) + " is filled completely"
+			if undec {
+				c.undecided(rule, inst, call.Pos(), "the buffer handed to crypto/rand.Read is not a recognisable make([]byte, n) / full array slice")
+				continue
+			}
+			c.check(rule, inst, call.Pos(), ok, "rand.Read over make([]byte, n) (len == cap)", "crypto/rand.Read is given a buffer shorter than the key (e.g. make([]byte, 0, n)): nothing is read, the cookie keys stay all-zero and anyone can forge a session cookie that authenticate() accepts")
+		}
+	}
+	c.floor(rule, "crypto/rand.Read calls in package web", n, 1)
 }
